@@ -176,6 +176,8 @@ COMP = {
     "or3": ("~ logic-mode: OR ~ ", '$SYM[*][ gt(line_number(), @t1) @p1.asbool gt(@t2, line_number()) ]'),
     "when-assign": ("", '$SYM[*][ @x = line_number()  gt(@x, @t1) -> gt(@t2, @x)  @p1 ]'),
     "counts": ("", '$SYM[*][ gt(count_scans(), @t1) gt(@t2, count_lines()) ]'),
+    # OR mode with a component that raises on line t2 (error policy: collect only): an erroring component does not hold
+    "or-error": ("~ logic-mode: OR ~ ", '$SYM[*][ gt(line_number(), @t1) gt(mod(1, subtract(line_number(), @t2)), 5) ]'),
     "nocontrib-last": ("", '$SYM[*][ gt(line_number(), @t1) @p1.nocontrib == 1 -> push("s", line_number()) last.nocontrib() -> push("l", line_number()) ]'),
 }
 
@@ -196,7 +198,9 @@ def comp_oracle(tpl, t1, t2, p1, b1, b2):
             continue
         g = i > t1
         l = i < t2
-        if tpl == "and3":
+        if tpl == "or-error":
+            m = g  # the second component never holds: 1 mod n is below 5, and on line t2 it raises
+        elif tpl == "and3":
             m = g and p1 and l
         elif tpl == "or3":
             m = g or p1 or l
@@ -224,7 +228,7 @@ def comp_oracle(tpl, t1, t2, p1, b1, b2):
 def comp_run(tpl: str, t1: int, t2: int, p1: bool, b1: bool, b2: bool) -> List[int]:
     comment, text = COMP[tpl]
     blanks = [False, b1, b2, False]
-    p, pr = fresh(comment + text, [[] if blanks[i] else [str(i)] for i in range(NREC)])
+    p, pr = fresh(comment + text, [[] if blanks[i] else [str(i)] for i in range(NREC)], policy=["collect"] if tpl == "or-error" else None)
     p.variables["t1"] = t1
     p.variables["t2"] = t2
     if tpl == "or3":
@@ -344,6 +348,7 @@ ROWFN = {
     "all": ("all()", lambda n, e0, e1, e2: n == 2 and not e0 and not e1),
     "missing": ("missing()", lambda n, e0, e1, e2: not (n == 2 and not e0 and not e1)),
     "all-list": ("all(#a, #b)", lambda n, e0, e1, e2: n >= 2 and not e0 and not e1),
+    "length-missing": ("gt(length(#b), 0)", lambda n, e0, e1, e2: n >= 2 and not e1),
     "any-headers": ("any(headers())", lambda n, e0, e1, e2: (n >= 1 and not e0) or (n >= 2 and not e1) or (n >= 3 and not e2)),
 }
 
